@@ -3,6 +3,6 @@
 export VERIF_EVIDENCE_DIR=${VERIF_EVIDENCE_DIR:-/tmp/allthorough-ev}
 mkdir -p $VERIF_EVIDENCE_DIR
 for i in 01 02 03 04 05 06 07 08 09 10 11 12 13 14 15 16 17; do
-  out=$(/venv/bin/python /verif/engine/check.py C$i --tier thorough 2>&1); c=$?
+  out=$(/venv/bin/python $(dirname $(readlink -f $0))/../engine/check.py C$i --tier thorough 2>&1); c=$?
   if [ $c -ne 0 ]; then echo "== C$i exit=$c"; echo "$out" | grep -v "WARNING conda" | cut -c1-500 | head -20; else echo "C$i ok"; fi
 done
